@@ -9,6 +9,8 @@
    conds : stored RateLimitConditions          (upstream, instance) -> (allocated quota, instance label)
    sums  : upstream state condition status     upstream -> allocated sum recorded at the last report
    cnts  : global max-in-flight flow control   upstream -> (instance -> counted in-flight, total)
+   lister: the UpstreamClusters the informer knows; an upstream has server-side state (state
+           condition, flow controls) iff it has an entry in [cnts] / [sums]
 
    The quota allocated by a report (calculateNextQuota, property C07) is not recomputed here: the
    Report operation carries the allocated value [q] (observed in the correspondence run,
@@ -34,6 +36,7 @@ Record st := mkSt {
   conds : list (key * cnd);               (* key = (upstream, instance) *)
   sums : list (string * Z);
   cnts : list (string * fcst);
+  lister : list string;                   (* UpstreamClusters known to the informer's lister *)
 }.
 
 Inductive op :=
@@ -42,7 +45,9 @@ Inductive op :=
 | Acquire (u i : string) (n : Z)          (* DoAcquire on the global-count max-in-flight schema: SetState(i, id, n) *)
 | TickTimeout                             (* one cleanupTimeoutClient pass (every 1 s) *)
 | TickUnknown                             (* one cleanupUnknownCondition pass (every 30 s) *)
-| Advance (dt : Z).
+| Advance (dt : Z)
+| ClusterGone (u : string)                (* the UpstreamCluster disappears from the lister; the handler did not run *)
+| ClusterSet (u : string).                (* the UpstreamCluster is (again) in the lister and UpstreamConditionHandler ran *)
 
 Inductive res := RNil | ROk | RNotFound | RAcc (b : bool).
 Definition res_eqb (a b : res) : bool :=
@@ -84,25 +89,32 @@ Definition deletable (p : key * cnd) : bool := negb (String.eqb (snd (fst p)) Em
 
 Definition step (c : cfg) (lf ah : bool) (s : st) (o : op) : st * res :=
   match o with
-  | Heartbeat i => (mkSt (now s) (aset String.eqb i (now s) (hb s)) (conds s) (sums s) (cnts s), RNil)
-  | Advance dt => (mkSt (now s + dt) (hb s) (conds s) (sums s) (cnts s), RNil)
+  | Heartbeat i => (mkSt (now s) (aset String.eqb i (now s) (hb s)) (conds s) (sums s) (cnts s) (lister s), RNil)
+  | Advance dt => (mkSt (now s + dt) (hb s) (conds s) (sums s) (cnts s) (lister s), RNil)
   | Report u i q =>
-      if negb (str_mem u (ups c)) then (s, RNotFound) else
+      (* limitStore.Get(u, u.state): the upstream state condition must exist *)
+      match alookup String.eqb u (sums s) with None => (s, RNotFound) | Some _ =>
+      (* an instance called "state" has the name of the upstream state condition: its condition is
+         saved under that name and at once overwritten by the recomputed state condition *)
+      if String.eqb i "state" then
+        (mkSt (now s) (hb s) (conds s) (aset String.eqb u (sum_quota u (conds s)) (sums s)) (cnts s) (lister s), ROk)
+      else
       let lab := if lf then i
                  else match alookup key_eqb (u, i) (conds s) with
                       | Some _ => i            (* oldCondition.Spec.Instance *)
                       | None => EmptyString    (* first report: the synthesised old condition has no instance *)
                       end in
       let cs := aset key_eqb (u, i) (q, lab) (conds s) in
-      (mkSt (now s) (hb s) cs (aset String.eqb u (sum_quota u cs) (sums s)) (cnts s), ROk)
+      (mkSt (now s) (hb s) cs (aset String.eqb u (sum_quota u cs) (sums s)) (cnts s) (lister s), ROk)
+      end
   | Acquire u i n =>
       let h := if ah then aset String.eqb i (now s) (hb s) else hb s in
       match alookup String.eqb u (cnts s) with
-      | None => (mkSt (now s) h (conds s) (sums s) (cnts s), RAcc false)
+      | None => (mkSt (now s) h (conds s) (sums s) (cnts s) (lister s), RAcc false)
       | Some f =>
-          if n <? 0 then (mkSt (now s) h (conds s) (sums s) (cnts s), RAcc false) else
+          if n <? 0 then (mkSt (now s) h (conds s) (sums s) (cnts s) (lister s), RAcc false) else
           let '(f', acc) := set_state (cmax c) f i n in
-          (mkSt (now s) h (conds s) (sums s) (aset String.eqb u f' (cnts s)), RAcc acc)
+          (mkSt (now s) h (conds s) (sums s) (aset String.eqb u f' (cnts s)) (lister s), RAcc acc)
       end
   | TickTimeout =>
       let dead := map fst (filter (fun p : string * Z => now s >? snd p + timeout_ms) (hb s)) in
@@ -110,16 +122,34 @@ Definition step (c : cfg) (lf ah : bool) (s : st) (o : op) : st * res :=
             (filter (fun p : string * Z => negb (now s >? snd p + timeout_ms)) (hb s))
             (filter (fun p : key * cnd => negb (str_mem (snd (snd p)) dead && deletable p)) (conds s))
             (sums s)
-            (drop_all dead (cnts s)), RNil)
+            (drop_all dead (cnts s)) (lister s), RNil)
   | TickUnknown =>
       let known := map fst (hb s) in
       let victim := fun p : key * cnd => (negb (str_mem (snd (fst p)) known) && deletable p)%bool in
       let gone := map (fun p : key * cnd => snd (fst p)) (filter victim (conds s)) in
-      (mkSt (now s) (hb s) (filter (fun p => negb (victim p)) (conds s)) (sums s) (drop_all gone (cnts s)), RNil)
+      (* upstreamsToDelete: an upstream that is not in the lister and has a condition (the state
+         condition, whose Spec.Instance is "", included) of an instance that is not in the cache *)
+      let orphan := fun u : string =>
+        (negb (str_mem u (lister s))
+         && (negb (str_mem EmptyString known)
+             || existsb (fun p : key * cnd => (String.eqb (fst (fst p)) u && negb (str_mem (snd (fst p)) known))%bool) (conds s)))%bool in
+      (mkSt (now s) (hb s)
+            (filter (fun p => (negb (victim p) && negb (orphan (fst (fst p))))%bool) (conds s))
+            (filter (fun p : string * Z => negb (orphan (fst p))) (sums s))
+            (filter (fun p : string * fcst => negb (orphan (fst p))) (drop_all gone (cnts s)))
+            (lister s), RNil)
+  | ClusterGone u =>
+      (mkSt (now s) (hb s) (conds s) (sums s) (cnts s) (filter (fun x => negb (String.eqb x u)) (lister s)), RNil)
+  | ClusterSet u =>
+      let l := if str_mem u (lister s) then lister s else u :: lister s in
+      match alookup String.eqb u (sums s) with
+      | Some _ => (mkSt (now s) (hb s) (conds s) (sums s) (cnts s) l, RNil)
+      | None => (mkSt (now s) (hb s) (conds s) (aset String.eqb u 0 (sums s)) (aset String.eqb u ([], 0) (cnts s)) l, RNil)
+      end
   end.
 
 Definition init (c : cfg) : st :=
-  mkSt 0 [] [] (map (fun u => (u, 0)) (ups c)) (map (fun u => (u, ([], 0))) (ups c)).
+  mkSt 0 [] [] (map (fun u => (u, 0)) (ups c)) (map (fun u => (u, ([], 0))) (ups c)) (ups c).
 
 Fixpoint run_state (c : cfg) (lf ah : bool) (s : st) (ops : list op) : st :=
   match ops with
